@@ -395,7 +395,7 @@ CATALOGUE['C03'] = [
   (F, 'R-DIMLENOUT', _F, "                    newdl = getattr(dvar[...], df)(keepdims=True).size", "                    newdl = 1"),
   (F, 'R-UNTOUCHED', _F, "            newvaro = outf.copyVariable(varo, key=vark, withdata=False)\n            newvaro[...] = newvals\n        if verbose > 0:\n            print()\n\n        return outf", "            if any(dk in dimfuncs for dk in vdims):\n                newvaro = outf.copyVariable(varo, key=vark, withdata=False)\n                newvaro[...] = newvals\n        if verbose > 0:\n            print()\n\n        return outf"),
   (S, None, _F, "                        newvals = getattr(newvals, dfunc)(\n                            axis=di, keepdims=True)", "                        newvals = getattr(newvals, dfunc)(\n                            keepdims=True, axis=di)"),
-  (S, None, _F, "            dik = list(enumerate(vdims))\n            for di, dk in dik[::-1]:", "            dik = list(enumerate(vdims))\n            for di, dk in dik:"),
+  (F, 'R-AXISORDER', _F, "            dik = list(enumerate(vdims))\n            for di, dk in dik[::-1]:", "            dik = list(enumerate(vdims))\n            for di, dk in dik:"),
 ]
 CATALOGUE['C14'] = [
   (F, 'R-BLOCKSIZE', _UM, "        spc_1_lay_block_size = 13 + nx * ny", "        spc_1_lay_block_size = 12 + nx * ny"),
@@ -570,26 +570,26 @@ CATALOGUE['C08'] += [
 # ---- variants taken from committed seeded changes (one file, any number of hunks): the rule named here must fire on the patched text.
 # A seed whose hunks no longer match the tree is skipped (reported as such), never a failure.
 SEED_VARIANTS = {
- 'C01': [('C01-x2', 'R-EVALDIMS'), ('C01-x3', 'R-NEWLEN'), ('C01-y1', 'R-STALEVAR'), ('C01-y3', 'R-GUARDOBJ'), ('C01-z1', 'R-ATTRLISTKIND'), ('C01-z3', 'R-NEWONLY')],
- 'C02': [('C02-x3', 'R-FUZZYDIM'), ('C02-x2', 'R-ZIPAXIS'), ('C02-x1', 'R-FILLLOOK'), ('C02-y2', 'R-DTYPEFULL'), ('C02-z1', 'R-NONEGUARD'), ('C02-z2', 'R-ADVIDX'), ('C02-z3', 'R-NONEGUARD')],
- 'C03': [('C03-x2', 'R-FUZZYDIM'), ('C03-x3', 'R-CONVCALL'), ('C03-y2', 'R-EDGEORDER'), ('C01-z2', 'R-KEEPDIMS'), ('C03-z1', 'R-TDSECONDS'), ('C03-z3', 'R-CONVCALL')],
+ 'C01': [('C01-x2', 'R-EVALDIMS'), ('C01-x3', 'R-NEWLEN'), ('C01-y1', 'R-STALEVAR'), ('C01-y3', 'R-GUARDOBJ'), ('C01-z1', 'R-ATTRLISTKIND'), ('C01-z3', 'R-NEWONLY'), ('C01-q1', 'R-NEWLEN'), ('C01-q2', 'R-NDSTORE')],
+ 'C02': [('C02-x3', 'R-FUZZYDIM'), ('C02-x2', 'R-ZIPAXIS'), ('C02-x1', 'R-FILLLOOK'), ('C02-y2', 'R-DTYPEFULL'), ('C02-z1', 'R-NONEGUARD'), ('C02-z2', 'R-ADVIDX'), ('C02-z3', 'R-NONEGUARD'), ('C02-q1', 'R-STOPPLUS1'), ('C02-q2', 'R-STOPPLUS1'), ('C02-q3', 'R-SELECTORRO'), ('C04-q1', 'R-ADVIDX')],
+ 'C03': [('C03-x2', 'R-FUZZYDIM'), ('C03-x3', 'R-CONVCALL'), ('C03-y2', 'R-EDGEORDER'), ('C01-z2', 'R-KEEPDIMS'), ('C03-z1', 'R-TDSECONDS'), ('C03-z3', 'R-CONVCALL'), ('C01-q3', 'R-AXISORDER')],
  'C04': [('C04-x1', 'R-MACONCAT'), ('C04-x3', 'R-UNLIM'), ('C04-y1', 'R-STACKDEFAULT'), ('C04-z1', 'R-TIMEUNITS')],
- 'C05': [('C05-x3', 'R-QMUT'), ('C05-y2', 'R-CLOSELOCAL'), ('C05-z1', 'R-QMUT'), ('C05-z3', 'R-QMUT')],
- 'C06': [('C06-x1', 'R-PASSONLY'), ('C06-x3', 'R-MASKDEFPARSE'), ('C06-y2', 'R-MASKTABLE'), ('C06-y3', 'R-COORDDECL'), ('C06-z1', 'R-VALUESASIS'), ('C06-z3', 'R-SEQLEFT')],
- 'C07': [('C07-x3', 'R-FILLZERO'), ('C07-x1', 'R-NCATTRAPI'), ('C07-y2', 'R-ATTRSKIP'), ('C07-y3', 'R-DATAWRITE'), ('C07-z1', 'R-DTYPEFULL')],
+ 'C05': [('C05-x3', 'R-QMUT'), ('C05-y2', 'R-CLOSELOCAL'), ('C05-z1', 'R-QMUT'), ('C05-z3', 'R-QMUT'), ('C05-q3', 'R-ALIAS')],
+ 'C06': [('C06-x1', 'R-PASSONLY'), ('C06-x3', 'R-MASKDEFPARSE'), ('C06-y2', 'R-MASKTABLE'), ('C06-y3', 'R-COORDDECL'), ('C06-z1', 'R-VALUESASIS'), ('C06-z3', 'R-SEQLEFT'), ('C06-q2', 'R-EVALSTORE'), ('C06-q3', 'R-COORDDEFAULT')],
+ 'C07': [('C07-x3', 'R-FILLZERO'), ('C07-x1', 'R-NCATTRAPI'), ('C07-y2', 'R-ATTRSKIP'), ('C07-y3', 'R-DATAWRITE'), ('C07-z1', 'R-DTYPEFULL'), ('C07-q1', 'R-TYPECODE'), ('C07-q2', 'R-SYNCED'), ('C07-q3', 'R-AUTOSCALE')],
  'C08': [('C09-x2', 'R-CARRY'), ('C08-x3', 'R-VARORDER'), ('C09-m3', 'R-ONESTEP'), ('C08-y1', 'R-STYLEFLAG'), ('C08-y2', 'R-SCALARVIEW'), ('C08-y3', 'R-SIZEDTEXT'), ('C08-z2', 'R-YEAREND'), ('C08-z3', 'R-HDRCOUNT'), ('C09-z1', 'R-PERSTEP')],
- 'C09': [('C09-y3', 'R-FRAME')],
+ 'C09': [('C09-y3', 'R-FRAME'), ('C09-q2', 'R-NZMIN')],
  'C10': [('C10-x1', 'R-STARTSYNC'), ('C10-x2', 'R-DIMRESET'), ('C10-y2', 'R-VARLISTWIDTH'), ('C10-y3', 'R-TFLAGUNLISTED'), ('C10-z1', 'R-COUNTATTR'), ('C10-z2', 'R-STARTSET'), ('C11-z3', 'R-FLAGPERTIME')],
  'C11': [('C11-x1', 'R-TIMESRC'), ('C12-x3', 'R-STEPSET')],
- 'C12': [('C12-x1', 'R-CALSRC'), ('C12-y1', 'R-TIMEPREC'), ('C12-y2', 'R-TIMESTORE'), ('C11-y1', 'R-HMSALL'), ('C11-z1', 'R-HMSRADIX'), ('C12-z2', 'R-HMSRADIX')],
- 'C13': [('C13-x1', 'R-TIMEORIGIN'), ('C13-x2', 'R-ONESHOT'), ('C13-x3', 'R-STEPTILE'), ('C13-y1', 'R-STEPID'), ('C13-y2', 'R-STEPCOUNT'), ('C13-z1', 'R-SCANSIBS'), ('C13-z2', 'R-SCANSIBS'), ('C13-z3', 'R-DEFSHAPE')],
- 'C14': [('C14-y1', 'R-FIRSTSTEP'), ('C14-y2', 'R-STRIDEFLAGS'), ('C14-z1', 'R-PARTIALRAISE'), ('C14-z2', 'R-SCANEXACT'), ('C14-z3', 'R-NOHANDOVER')],
- 'C15': [('C15-x2', 'R-NOSTATE'), ('C15-x3', 'R-ISMINEPURE'), ('C15-y2', 'R-ONEOWNER'), ('C15-z3', 'R-MODSTATE')],
- 'C16': [('C16-x1', 'R-BOUNDSBREAK'), ('C16-x2', 'R-QUERYDTYPE'), ('C16-x3', 'R-EDGEPAIR'), ('C16-y2', 'R-EXACT'), ('C16-y3', 'R-RANGECHECK'), ('C12-y3', 'R-CALSRC'), ('C16-z1', 'R-RESBOTH'), ('C16-z2', 'R-EDGECLAMP'), ('C16-z3', 'R-TZDROP')],
- 'C17': [('C17-x1', 'R-NORMSAME'), ('C17-x2', 'R-SIGMADEF'), ('C17-x3', 'R-COORDSEL'), ('C17-y2', 'R-ATTRALIAS'), ('C17-y3', 'R-NOSHORTCUT'), ('C17-z1', 'R-ARGORDER'), ('C17-z2', 'R-RESTYPE')],
- 'C18': [('C18-x2', 'R-PIECEORDER'), ('C18-x3', 'R-REGALL'), ('C18-y1', 'R-REWINDCOPY'), ('C18-y2', 'R-WINDOW3'), ('C18-y3', 'R-COLTILE'), ('C18-z1', 'R-RESERVEDKEEP'), ('C18-z2', 'R-DIMPERBLOCK'), ('C18-z3', 'R-GROUPFIRST')],
- 'C19': [('C19-x2', 'R-MISSPARSE'), ('C19-x3', 'R-LINECOUNT'), ('C19-y1', 'R-ENCODING'), ('C19-y2', 'R-INDEPSRC'), ('C19-y3', 'R-FALSYDEFAULT'), ('C19-z1', 'R-SAMEINDEX'), ('C19-z2', 'R-NAMESPLIT'), ('C19-z3', 'R-DATEDEFAULT')],
- 'C20': [('C20-x3', 'R-ARLWIDTH'), ('C20-y2', 'R-STAMPFMT'), ('C20-y3', 'R-KSUM'), ('C20-z1', 'R-ABSMAX'), ('C20-z2', 'R-UNPACKPURE'), ('C20-z3', 'R-VGTXT')],
+ 'C12': [('C12-x1', 'R-CALSRC'), ('C12-y1', 'R-TIMEPREC'), ('C12-y2', 'R-TIMESTORE'), ('C11-y1', 'R-HMSALL'), ('C11-z1', 'R-HMSRADIX'), ('C12-z2', 'R-HMSRADIX'), ('C12-q2', 'R-TZDROP')],
+ 'C13': [('C13-x1', 'R-TIMEORIGIN'), ('C13-x2', 'R-ONESHOT'), ('C13-x3', 'R-STEPTILE'), ('C13-y1', 'R-STEPID'), ('C13-y2', 'R-STEPCOUNT'), ('C13-z1', 'R-SCANSIBS'), ('C13-z2', 'R-SCANSIBS'), ('C13-z3', 'R-DEFSHAPE'), ('C08-q1', 'R-STEPID'), ('C09-q1', 'R-STEPLEN'), ('C13-q1', 'R-FRESHARRAY'), ('C13-q3', 'R-SPCBOUND')],
+ 'C14': [('C14-y1', 'R-FIRSTSTEP'), ('C14-y2', 'R-STRIDEFLAGS'), ('C14-z1', 'R-PARTIALRAISE'), ('C14-z2', 'R-SCANEXACT'), ('C14-z3', 'R-NOHANDOVER'), ('C14-q1', 'R-STRIDEFLAGS'), ('C14-q3', 'R-FIRSTSTEP')],
+ 'C15': [('C15-x2', 'R-NOSTATE'), ('C15-x3', 'R-ISMINEPURE'), ('C15-y2', 'R-ONEOWNER'), ('C15-z3', 'R-MODSTATE'), ('C15-q3', 'R-OWNOPTS')],
+ 'C16': [('C16-x1', 'R-BOUNDSBREAK'), ('C16-x2', 'R-QUERYDTYPE'), ('C16-x3', 'R-EDGEPAIR'), ('C16-y2', 'R-EXACT'), ('C16-y3', 'R-RANGECHECK'), ('C12-y3', 'R-CALSRC'), ('C16-z1', 'R-RESBOTH'), ('C16-z2', 'R-EDGECLAMP'), ('C16-z3', 'R-TZDROP'), ('C16-q2', 'R-RANGECHECK'), ('C16-q3', 'R-NOTOL')],
+ 'C17': [('C17-x1', 'R-NORMSAME'), ('C17-x2', 'R-SIGMADEF'), ('C17-x3', 'R-COORDSEL'), ('C17-y2', 'R-ATTRALIAS'), ('C17-y3', 'R-NOSHORTCUT'), ('C17-z1', 'R-ARGORDER'), ('C17-z2', 'R-RESTYPE'), ('C17-q2', 'R-LOGPAIR'), ('C17-q3', 'R-CONVEDGES')],
+ 'C18': [('C18-x2', 'R-PIECEORDER'), ('C18-x3', 'R-REGALL'), ('C18-y1', 'R-REWINDCOPY'), ('C18-y2', 'R-WINDOW3'), ('C18-y3', 'R-COLTILE'), ('C18-z1', 'R-RESERVEDKEEP'), ('C18-z2', 'R-DIMPERBLOCK'), ('C18-z3', 'R-GROUPFIRST'), ('C18-q1', 'R-STARTAXIS'), ('C18-q2', 'R-TAUKEY')],
+ 'C19': [('C19-x2', 'R-MISSPARSE'), ('C19-x3', 'R-LINECOUNT'), ('C19-y1', 'R-ENCODING'), ('C19-y2', 'R-INDEPSRC'), ('C19-y3', 'R-FALSYDEFAULT'), ('C19-z1', 'R-SAMEINDEX'), ('C19-z2', 'R-NAMESPLIT'), ('C19-z3', 'R-DATEDEFAULT'), ('C19-q2', 'R-MODSTATE'), ('C19-q3', 'R-VALSASREAD')],
+ 'C20': [('C20-x3', 'R-ARLWIDTH'), ('C20-y2', 'R-STAMPFMT'), ('C20-y3', 'R-KSUM'), ('C20-z1', 'R-ABSMAX'), ('C20-z2', 'R-UNPACKPURE'), ('C20-z3', 'R-VGTXT'), ('C20-q1', 'R-PRECAFTER'), ('C20-q2', 'R-STAMPFMT')],
 }
 
 
